@@ -757,5 +757,16 @@ class SimpleStreamUpdater(StreamUpdater):
         if replication_nr < 0:
             raise ValueError("replication_nr < 0")
         stream.set_seed(stream.original_seed() + replication_nr * 
-                        (1_000_037 + hash(stream_id)))
+                        (1_000_037 + self._hash_code(stream_id)))
+
+    @staticmethod
+    def _hash_code(stream_id: str) -> int:
+        """Return a hash of the stream id that is the same in every process
+        and on every platform (the algorithm of Java's String.hashCode). 
+        The built-in hash() of a str is randomized per interpreter start,
+        which would make the seeds differ from run to run."""
+        h: int = 0
+        for ch in stream_id:
+            h = (31 * h + ord(ch)) % 4294967296
+        return h
 
